@@ -28,6 +28,8 @@ RULE = ("kind workflow: crystal x primitive axes x NAC: `phonopy -d` (displaced 
         "configuration-file route byte-identical outputs (mesh, thermal properties, band, group velocities, mesh symmetry off, DOS, thermal displacements, q-points with dynamical matrices); "
         "final phonopy.yaml reloaded; further phonopy-load run modes vs library: --gv (values inside degenerate groups compared as sets per direction), mesh/band --eigvecs "
         "(projectors onto degenerate subspaces), --td, --tdm, --hdf5, --band-connection (per-q set vs the unconnected path; order where gaps > 1e-3), --writedm, tetrahedron DOS; "
+        "kind calcflow: 15 calculators x (NAC from BORN with comment header | NAC inside the yaml): phonopy_params.yaml saved by the library with the calculator recorded only there, "
+        "`phonopy-load` and `phonopy -c` q-points with NAC vs the library twin, summary file NAC factor and calculator; "
         "kind settings: every row of the option<->tag table of doc/command-options.md (parsed at run time) x both commands: Settings via option == Settings via conf tag and != default; "
         "non-trivial = output file compared / settings differ from default; distinct = (workflow step) / (table row, command)")
 ASSUMPTIONS = [
@@ -60,6 +62,7 @@ CONTEXT = {"QPOINTS_FORMAT": (["--qpoints", "0 0 0 1/2 0 0"], "QPOINTS = 0 0 0 1
            "BAND_POINTS": (["--band", "0 0 0 1/2 0 0"], "BAND = 0 0 0 1/2 0 0"), "BAND_CONNECTION": (["--band", "0 0 0 1/2 0 0"], "BAND = 0 0 0 1/2 0 0")}
 
 
+CALCS = ["vasp", "qe", "abinit", "wien2k", "elk", "siesta", "crystal", "dftbp", "turbomole", "aims", "castep", "fleur", "abacus", "lammps", "pwmat"]  # cp2k: phonopy defines no NAC factor for it
 ROUTE_FILES = ("mesh.yaml", "thermal_properties.yaml", "band.yaml", "total_dos.dat", "thermal_displacements.yaml", "qpoints.yaml")
 
 
@@ -71,6 +74,12 @@ def gen_cases(tier, seed):
         wf = wf[:5]
     for name, pa, nac in wf:
         cases.append({"kind": "workflow", "crystal": {"name": name}, "pa": pa, "nac": nac, "seed": int(rng.integers(10 ** 6)), "_cost": 50})
+    # calculator known only from the yaml file that is read (no --qe style option): units, NAC factor from BORN, summary file
+    calcs = list(CALCS)
+    rng.shuffle(calcs)
+    for i, calc in enumerate(calcs if tier == "thorough" else calcs[:6]):
+        cases.append({"kind": "calcflow", "calculator": calc, "crystal": {"name": ["rocksalt", "zincblende", "cscl", "wurtzite"][i % 4]}, "nac_in_yaml": bool(i % 3 == 2),
+                      "seed": int(rng.integers(10 ** 6)), "_cost": 10})
     return cases
 
 
@@ -219,6 +228,100 @@ def run_case(c):
             shutil.rmtree(tmp, ignore_errors=True)
         return {"viol": viol, "nontrivial": bool(keys), "keys": keys, "obs": obs, "evals": obs.get("rows_compared", 0),
                 "sample": {"kind": "settings", "command": c["command"], "table_rows": len(rows), "first_rows": rows[:3]}}
+
+    if c["kind"] == "calcflow":
+        import phonopy
+        import yaml
+        from phonopy.file_IO import write_BORN
+        from phonopy.interface.calculator import get_default_physical_units
+        from vlib.gen import crystals, models, nac as nacgen, setup
+
+        calc = c["calculator"]
+        units = get_default_physical_units(calc)
+        env = runner.worker_env("omp")
+        tmp = tempfile.mkdtemp(prefix="c18c_", dir=os.getcwd())
+        rng = np.random.default_rng(c["seed"])
+        feat = dict(calculator=calc, crystal=c["crystal"]["name"], nac_in_yaml=c["nac_in_yaml"])
+        n_files = 0
+        cwd = os.getcwd()
+        try:
+            ph, cd = setup.build_phonopy({"crystal": c["crystal"], "smat": np.diag([2, 2, 2]).tolist() if crystals.natoms(c["crystal"]["name"]) <= 2 else np.diag([2, 2, 1]).tolist()},
+                                        factor=units["factor"], calculator=calc)
+            if cd["pmat"] != "P":
+                ph, cd = setup.build_phonopy({"crystal": c["crystal"], "smat": np.diag([2, 2, 2]).tolist(), "pmat": cd["pmat"]}, factor=units["factor"], calculator=calc)
+            sc = ph.supercell
+            fcm = models.pair_fc(sc.cell, sc.scaled_positions, sc.symbols, cutoff=4.6)
+            ph.generate_displacements(distance=0.03)
+            ph.forces = setup.harmonic_forces_type1(ph, fcm)
+            nacp = nacgen.random_nac(ph, rng, method="gonze")
+            if c["nac_in_yaml"]:
+                p_ = dict(nacp)
+                p_["factor"] = units["nac_factor"]
+                ph.nac_params = p_
+            os.chdir(tmp)
+            ph.save("phonopy_params.yaml", settings={"force_sets": True, "displacements": True, "force_constants": False})
+            if not c["nac_in_yaml"]:
+                write_BORN(ph.primitive, nacp["born"], nacp["dielectric"], filename="BORN")  # comment header: no explicit factor, the calculator's default applies
+            os.chdir(cwd)
+            if ("calculator: %s" % calc) not in open(os.path.join(tmp, "phonopy_params.yaml")).read() and calc != "vasp":
+                return {"error": "harness: calculator not recorded in the yaml"}
+
+            def twin():
+                os.chdir(tmp)
+                try:
+                    return phonopy.load("phonopy_params.yaml", is_nac=True, born_filename=(None if c["nac_in_yaml"] else "BORN"), symmetrize_fc=True, log_level=0)
+                finally:
+                    os.chdir(cwd)
+
+            tw = twin()
+            want_factor = units["nac_factor"]
+            if abs(tw.nac_params["factor"] - want_factor) > (1e-6 if c["nac_in_yaml"] else 1e-12) * abs(want_factor):  # the yaml prints the factor with 6 decimals
+                return {"error": "harness: library twin does not use the calculator's NAC factor"}
+            qarg = "0 0 0 0.1 0.2 0.3 1/2 0 0"
+            qs = [[0, 0, 0], [0.1, 0.2, 0.3], [0.5, 0, 0]]
+            tw.run_qpoints(qs, nac_q_direction=[1, 0, 0])
+            want = np.array(tw.get_qpoints_dict()["frequencies"])
+            twn = phonopy.load(os.path.join(tmp, "phonopy_params.yaml"), is_nac=False, symmetrize_fc=True, log_level=0)
+            twn.run_qpoints(qs)
+            nac_matters = bool(np.abs(np.array(twn.get_qpoints_dict()["frequencies"]) - want).max() > 1e-6 * max(np.abs(want).max(), 1e-12))
+            for cmd, args in (("phonopy-load", ["phonopy_params.yaml", "--fc-calc", "traditional", "--qpoints", qarg, "--q-direction", "1 0 0"]),
+                              ("phonopy", ["-c", "phonopy_params.yaml", "--fc-symmetry", "--nac", "--qpoints", qarg, "--q-direction", "1 0 0"])):
+                for fn in ("qpoints.yaml", "phonopy.yaml"):
+                    if os.path.exists(os.path.join(tmp, fn)):
+                        os.remove(os.path.join(tmp, fn))
+                p = run_cli(cmd, args, tmp, env)
+                obs["cli_runs"] = obs.get("cli_runs", 0) + 1
+                if p.returncode != 0:
+                    bad("cli_failed", "%s %s failed (rc=%d): %s" % (cmd, " ".join(args), p.returncode, (p.stderr or p.stdout)[-400:]), step="calcflow:" + cmd, **feat)
+                    continue
+                if not os.path.exists(os.path.join(tmp, "qpoints.yaml")):
+                    bad("output_missing", "qpoints.yaml not written", step="calcflow:" + cmd, **feat)
+                    continue
+                y = yaml.safe_load(open(os.path.join(tmp, "qpoints.yaml")))
+                got = np.array([[b["frequency"] for b in p_["band"]] for p_ in y["phonon"]], float)
+                n_files += 1
+                tol = 0.6e-10 + 1e-12 * np.abs(want).max()
+                mask = np.abs(want) > 1e-4
+                if got.shape != want.shape or (np.abs(got - want)[mask] > tol).any():
+                    bad("output_mismatch", "%s (calculator %s known only from the yaml): qpoints.yaml frequencies differ from the library by %.3e" % (
+                        cmd, calc, np.abs(got - want)[mask].max() if got.shape == want.shape else np.inf), step="calcflow:" + cmd, file="qpoints.yaml", quantity="frequencies (NAC)", **feat)
+                keys.append("calcflow|%s|%s|%s" % (calc, cmd, c["nac_in_yaml"]))
+                # the summary file records the calculation that was run
+                if os.path.exists(os.path.join(tmp, "phonopy.yaml")):
+                    ys = yaml.safe_load(open(os.path.join(tmp, "phonopy.yaml")))
+                    n_files += 1
+                    f_s = (ys.get("nac") or {}).get("unit_conversion_factor")
+                    if f_s is None or abs(f_s - want_factor) > 1e-5 * abs(want_factor):
+                        bad("summary_reload", "phonopy.yaml written by %s records NAC unit_conversion_factor %r, the calculator %s uses %.6f" % (cmd, f_s, calc, want_factor), step="summary:" + cmd, **feat)
+                    if (ys.get("phonopy") or {}).get("calculator", "vasp") != calc:
+                        bad("summary_reload", "phonopy.yaml written by %s records calculator %r, the run used %s" % (cmd, (ys.get("phonopy") or {}).get("calculator"), calc), step="summary:" + cmd, **feat)
+            obs["calcflow_nac_matters"] = obs.get("calcflow_nac_matters", 0) + int(nac_matters)
+            obs["files_compared"] = n_files
+            return {"viol": viol[:12], "nontrivial": bool(keys) and nac_matters, "keys": keys, "obs": obs, "evals": n_files,
+                    "sample": {"kind": "calcflow", "calculator": calc, "crystal": c["crystal"], "nac_in_yaml": c["nac_in_yaml"], "nac_factor": want_factor}}
+        finally:
+            os.chdir(cwd)
+            shutil.rmtree(tmp, ignore_errors=True)
 
     # ------------------------------------------------------------------ workflow
     import phonopy
